@@ -19,7 +19,7 @@ LEVEL = "exploration"
 CASES = {"quick": 330, "thorough": 8000}
 WALL_CAP = {"quick": 1500, "thorough": 5 * 3600}
 RELATIONS = ["repeat", "host", "history", "order", "subset"]
-WEIGHTS = {"shared_instants": 0.5, "confusable": 0.25, "few_prices": 0.4, "micro": 0.4, "mixed_tz": 0.9}
+WEIGHTS = {"shared_instants": 0.5, "confusable": 0.25, "few_prices": 0.4, "micro": 0.4, "mixed_tz": 0.9, "whales": 0.2}
 CRASH_WORLDS = {"quick": 1, "thorough": 6}
 CRASH_STRIDE = {"quick": 3, "thorough": 1}
 RULE = ("one case = a reference run of a generated valid world (all instants distinct) + option tuple in a pristine directory under the "
